@@ -113,14 +113,28 @@ pub fn run(o: &Opts) -> i32 {
     let mut l2 = vec![]; parents(&kids2, &mut l2, true);
     for e in &l2 { emit(e, &mut total, &mut samples); }
     if o.thorough {
-        // depth 3 (every operator in every operand position three levels deep), single leaf
+        // depth 3 (every operator over every depth-2 shape in each operand position, three levels deep; single
+        // leaf alphabet; the other operand is the leaf or one of four depth-1 shapes) — streamed, not materialised
         let tiny0 = vec![l0[0].clone()];
         let mut t1 = vec![]; parents(&tiny0, &mut t1, true);
         let mut k2 = tiny0.clone(); k2.extend(t1.iter().cloned());
         let mut t2 = vec![]; parents(&k2, &mut t2, true);
-        let mut k3 = tiny0.clone(); k3.extend(t2.iter().cloned());
-        let mut t3 = vec![]; parents(&k3, &mut t3, true);
-        for e in &t3 { emit(e, &mut total, &mut samples); }
+        let mut others: Vec<Expr> = tiny0.clone();
+        for _ in 0..4 { others.push(rng.pick(&t1).clone()); }
+        for a in &t2 {
+            emit(&Expr::new_negate(a.clone()), &mut total, &mut samples);
+            emit(&Expr::new_suffix(Degree::Celsius, a.clone()), &mut total, &mut samples);
+            emit(&Expr::new_of("foo", a.clone()), &mut total, &mut samples);
+            emit(&Expr::new_call(Function::Sin, vec![a.clone()]), &mut total, &mut samples);
+            for b in &others {
+                for op in OPS {
+                    emit(&Expr::new_bin(op, a.clone(), b.clone()), &mut total, &mut samples);
+                    emit(&Expr::new_bin(op, b.clone(), a.clone()), &mut total, &mut samples);
+                }
+                emit(&Expr::Mul { exprs: vec![a.clone(), b.clone()] }, &mut total, &mut samples);
+                emit(&Expr::Mul { exprs: vec![b.clone(), a.clone()] }, &mut total, &mut samples);
+            }
+        }
     }
     let nrand = if o.thorough { 200_000 } else { 20_000 };
     for _ in 0..nrand { let d = 2 + rng.below(4) as u32; let e = rand_expr(&mut rng, d); emit(&e, &mut total, &mut samples); }
